@@ -9,6 +9,31 @@ from .shapes import (SV, SNone, SOpt, SRef, STup, SMap, SBytes, SStr, Value,
                      lift, ite, strlit, Val)
 
 
+_quant_memo = {}
+
+
+def has_quant(f):
+    """does the formula contain a quantifier? (memoised on the AST id; the
+    formula is kept alive by the memo so ids are not reused)"""
+    key = f.get_id()
+    hit = _quant_memo.get(key)
+    if hit is not None and hit[0].eq(f):
+        return hit[1]
+    seen, stack, res = set(), [f], False
+    while stack:
+        t = stack.pop()
+        i = t.get_id()
+        if i in seen:
+            continue
+        seen.add(i)
+        if z3.is_quantifier(t):
+            res = True
+            break
+        stack.extend(t.children())
+    _quant_memo[key] = (f, res)
+    return res
+
+
 class Unsupported(Exception):
     """construct outside the supported subset -> undecided (exit 2)"""
 
@@ -206,7 +231,12 @@ class Path:
 
     # ---- decisions
     def feasible(self, extra):
-        v, _, _ = smt.check(self.pc + extra, timeout_ms=smt.QUICK_TIMEOUT_MS,
+        """path feasibility, decided on the quantifier-free part of the path
+        condition only (dropping assumptions can only make more paths look
+        feasible, which is sound: obligations on an infeasible path are still
+        checked against the full path condition and hold vacuously)"""
+        qf = [f for f in self.pc if not has_quant(f)]
+        v, _, _ = smt.check(qf + extra, timeout_ms=min(3000, smt.QUICK_TIMEOUT_MS),
                             fallback=False)
         return v != 'unsat'
 
@@ -343,8 +373,8 @@ def box(v):
     if isinstance(v, VExc):
         es = [box(a) for a in v.args]
         key = 'exc:' + v.cls + ':%d' % len(es)
-    elif isinstance(v, (VFunc, VClass, VExternal, VModule)):
-        return z3.Const('obj:' + repr(v), Val)
+    elif isinstance(v, (VFunc, VClass, VExternal, VModule)) or type(v).__name__ in ('PyDictC', 'PyDict', '_BoundExt', 'VBound'):
+        return z3.Const('obj:' + repr(v)[:80], Val)
     elif isinstance(v, PyList):
         es = [box(a) for a in v.items]
         key = 'pylist:%d' % len(es)
